@@ -190,7 +190,7 @@ let parse_reads (body_src : char list) (spec : string) : (char list * rerr) list
   with Exit | Failure _ -> None
 
 let judge_ms (ins : string list) (outs : string list) : verdict =
-  if outs = ["HANG"] then VPropfail ("logging_terminates", "the logging goroutines did not finish within 90 s") else
+  if outs = ["HANG"] then VPropfail ("logging_terminates", "logging calls, body reads through the wrapper or Stream.Close did not return (watchdog: 8 s for failing-sink cases, 90 s otherwise)") else
   if outs = ["badcase"] then VDisagree "badcase" else
   let specs = try parse_ms_in ins with Bad t -> raise (Failure ("bad IN token " ^ t)) in
   (* split OUT *)
@@ -230,6 +230,7 @@ let judge_ms (ins : string list) (outs : string list) : verdict =
     | t :: r -> (match cur with Some c -> split_secs acc (Some (t :: c)) r | None -> split_secs acc None r) in
   let secs = split_secs [] None !tail in
   if secs = [] then VDisagree "no-sink-section-in-observation" else
+  let only_from = ref 0 in
   let judge_section (sec : string list) : verdict =
   let sname = match sec with t :: _ -> after "SINK=" t | [] -> "?" in
   let nw = ref (-1) and raw = ref None and rest = ref [] and note = ref "" in
@@ -285,7 +286,7 @@ let judge_ms (ins : string list) (outs : string list) : verdict =
                let key = (wid, mt) in
                let mine = List.filter (keyb key) frames in
                let ts = match find_ts mine with Some v -> v | None -> [] in
-               if not (ts_okb (n_of_dec o.t0) (n_of_dec o.t1) ts) then
+               if j >= !only_from && not (ts_okb (n_of_dec o.t0) (n_of_dec o.t1) ts) then
                  fail "pseudo_headers" (Printf.sprintf "m%d: :timestamp=%s not a decimal within [%s,%s]" j (hex_of_chars ts) o.t0 o.t1);
                let pseudo =
                  if sp.kind = "Q" then req_pseudo sp.me sp.sc sp.au o.ep sp.qu sp.pr sp.ra ts sp.api
@@ -293,6 +294,12 @@ let judge_ms (ins : string list) (outs : string list) : verdict =
                let hdrs = map_headers sp.hs (if sp.kind = "Q" then sp.ho else []) (n_of_int sp.cl) sp.te in
                [ (j, o, { m_id = wid; m_mt = mt; m_pseudo = pseudo; m_hdrs = hdrs; m_reads = unders }) ]
            | _ -> dis (Printf.sprintf "m%d: unusable U=/W= tokens" j); [])) (List.combine specs obs)) in
+  (* failing sink: only the messages logged after the failure (index >=
+     only_from) are expected to decode completely; frames of earlier messages
+     (some were lost with the failed write) are set aside *)
+  let msgs = List.filter (fun (j, _, _) -> j >= !only_from) msgs in
+  let frames = if !only_from = 0 then frames
+    else List.filter (fun f -> List.exists (fun (_, _, m) -> keyb (mkey m) f) msgs) frames in
   let ms = List.map (fun (_, _, m) -> m) msgs in
   (* precondition of demultiplexing: distinct (wire id, type) *)
   let rec dup = function
@@ -339,6 +346,7 @@ let judge_ms (ins : string list) (outs : string list) : verdict =
   | None ->
   (* correspondence beyond the oracle *)
   (match !disagree with Some d -> VDisagree d | None ->
+  if !only_from > 0 then VOk (List.length frames >= 10) else
   let (mf, mfin) = dec_stream raw in
   if not (fin_eq mfin ofin) then VDisagree (Printf.sprintf "final: model=%s impl=%s" (pr_fin mfin) (pr_fin ofin))
   else if not (frames_eq mf frames) then VDisagree ("reader-vs-model on stream bytes: " ^ diff_detail mf frames)
@@ -376,6 +384,16 @@ let judge_ms (ins : string list) (outs : string list) : verdict =
   let judge_group (secs : string list list) : verdict =
   let first = List.hd secs in
   if starts_with "harness-error" (note_of first) then VDisagree (note_of first) else
+  if starts_with "failsink:" (note_of first) then begin
+    (* failsink:<mode>:<phase>: after a single failed write the later messages
+       must decode completely; after a permanent failure or a short (torn)
+       write nothing more can be decoded: termination and passthrough only *)
+    (match String.split_on_char ':' (note_of first) with
+     | [_; "once"; ph] -> only_from := int_of_string ph
+     | _ -> only_from := max_int);
+    let sec = List.filter (fun t -> not (starts_with "NOTE=" t)) first in
+    let v = tagv "sink" (sname first) (judge_section sec) in
+    only_from := 0; v end else
   if note_of first <> "" then VOk false  (* no complete reference observation: undecided *) else
   let ref_frames = match sec_obs first with Some (_, (fs, _)) -> fs | None -> [] in
   (* what EACH other subscriber received: per (id, type) a gap-free run of the
